@@ -117,6 +117,8 @@ known("C04", r"^asm_expr\|((fcb|fdb)/[^|]*\|C04:width\|[^|]*:unfit-accepted|imm1
       "an expression result that does not fit the operand width is accepted (LDA #0-129)", {"asm": [" LDA #$00-129"]}, also=("C12",))
 known("C04", r"^asm_expr\|equ/[^|]*\|C04:value\|equ:[^|]*:equ-(value=|symbol-has-no-value)",
       "EQU whose operand is a symbol or an expression gets the value 0 / no value", {"asm": ["V EQU $1234", "S EQU V"]})
+known("C04", r"^asm_expr\|\w+/num:small/label-before\|(C04:value|C04:div-by-zero-rejected)\|\w+:num:small/label-before:(value-mismatch|div0-accepted)",
+      "number / label is computed as label / number (9/L with L at address 0 is accepted and yields 0)", {"asm": [" ORG $0000", "L NOP", " LDX #9/L"]})
 known("C04", r"^asm_expr\|(equ|fcb|fdb)/[^|]*\|C04:div-by-zero-rejected\|(equ|fcb|fdb):[^|]*:div0-accepted",
       "division by zero in an expression is not rejected with a diagnostic", {"asm": ["K EQU 0", " LDA #8/K"]}, also=("C13",))
 known("C04", r"^asm_expr\|(extind|idx|idx16)/[^|]*label[^|]*\|C04:accepted\|[^|]*:rejected:TranslationError",
@@ -128,17 +130,17 @@ known("C13", r"^asm_expr\|[^|]*label-(before|after)[^|]*\|C13:no-internal-error\
       {"asm": ["L NOP", " LDA #8/L"]}, also=("C04",))
 
 # ------------------------------------------------------------------------------------------------ data directives (C05)
-known("C05", r"^asm_data\|F[CD]B/\d+[^|]*\|C05:rejects-unfit\|(F[CD]B/1(/equ)?:accepted-unfit:truncated|FCB/[23]:accepted-unfit:longer):",
+known("C05", r"^asm_data\|F[CD]B/\d+[^|]*\|C05:rejects-unfit\|(F[CD]B/1(/equ)?:accepted-unfit:truncated|FCB/([2-9]|\d\d):accepted-unfit:longer):",
       "FCB/FDB accept values that do not fit the directive's width (FCB 256 -> 10, FCB 1,256 emits three bytes)",
       {"asm": [" FCB 256"]}, also=("C12",))
 known("C05", r"^asm_data\|F[CD]B/1/[^|]*\|C05:bytes\|F[CD]B/1:value-mismatch:vals=-\d+\.\.-\d+$",
       "FCB/FDB with a single negative value: the sign is lost (FCB -1 -> 01, FDB -300 -> 012C)", {"asm": [" FCB -1"]}, also=("C04", "C02"))
-known("C05", r"^asm_data\|FDB/[23]/[^|]*\|C05:bytes\|FDB/[23]:value-mismatch:vals=([^|]*,)?-(128\.\.-17|16\.\.-1)(,[^|]*)?$",
+known("C05", r"^asm_data\|FDB/([2-9]|\d\d)/[^|]*\|C05:bytes\|FDB/([2-9]|\d\d):value-mismatch:vals=([^|]*,)?-(128\.\.-17|16\.\.-1)(,[^|]*)?$",
       "FDB lists: an element in -128..-1 is rendered as its 8-bit two's complement, zero extended (FDB 1,-2 -> 0001 00FE); "
       "elements below -128 and FCB lists are right", {"asm": [" FDB 1,-2"]}, also=("C04", "C02"))
 known("C05", r"^asm_data\|F[CD]B/\d+/[^|]*equ[^|]*\|(C05:bytes|C02:size)\|F[CD]B/\d+/equ[^:]*:(value-mismatch|count=\d+,want=\d+|size=\d+,len=\d+)",
       "FCB/FDB: EQU symbols as elements are not resolved (emit 0)", {"asm": ["V EQU 5", " FCB V"]}, also=("C04", "C02"))
-known("C05", r"^asm_data\|F[CD]B/\d+[^|]*\|C13:no-internal-error\|(FCB/[23]:escape:IndexError:|F[CD]B/2/equ-first:escape:ValueTypeError:|F[CD]B/1(/equ)?:escape:ValueTypeError:vals=-1000000000\.\.-32769$)",
+known("C05", r"^asm_data\|F[CD]B/\d+[^|]*\|C13:no-internal-error\|(FCB/([2-9]|\d\d):escape:IndexError:|F[CD]B/2/equ-first:escape:ValueTypeError:|F[CD]B/1(/equ)?:escape:ValueTypeError:vals=-1000000000\.\.-32769$)",
       "FCB/FDB lists with a value wider than the directive raise IndexError / ValueTypeError instead of a diagnostic",
       {"asm": [" FCB 1,256"]}, also=("C13",))
 known("C05", r"^asm_data\|FCC/[^|]*\|(C05:fcc-bytes|C02:size|C05:accepted|C13:no-internal-error)\|[^|]*chars=(space(,[a-z,]*)?|([a-z,]*,)?space|[a-z,]*(semicolon|punct)[a-z,]*)$",
@@ -155,6 +157,9 @@ known("C05", r"^asm_data\|silent/END\|(C13:no-internal-error|C05:accepted)\|sile
 # ------------------------------------------------------------------------------------------------ special operands
 
 # ------------------------------------------------------------------------------------------------ termination / internal errors
+known("C13", r"^asm_forms\|[^|]*/(neg5|dec5)/\w+/equ\|C13:no-internal-error\|[^|]*:escape:(ValueTypeError:val=-1000000000\.\.-32769|AttributeError:val=65536\.\.1000000000):",
+      "an EQU symbol whose value lies outside -32768..65535, used as an operand, raises ValueTypeError (below -32768) or "
+      "AttributeError (above 65535) instead of a diagnostic", {"asm": ["V EQU -39001", " LDA V"]})
 known("C13", r"^asm_layout\|abs/LDA,X/[^|]*\|C13:no-internal-error\|abs/LDA,X:\w+:\w+:escape:IndexError",
       "a label used as constant index offset (LDA L,X) raises IndexError in fix_addresses", {"asm": ["L NOP", " LDA L,X"]}, also=("C01", "C04"))
 known("C13", r"^asm_layout\|placement/[\w-]+\|C13:no-internal-error\|placement/[\w-]+:escape:ValueTypeError",
